@@ -144,7 +144,7 @@ def c13_axis(w, ev, slot):
     if np.isfinite(want).all() and not np.array_equal(outs[0].m, want):
         w.fail('c13.axis_agree', 'element-wise transform result %r, expected '
                '%r' % (outs[0].m.tolist(), want.tolist()))
-    w.expect_unchanged(slot, 'noninplace.receiver_changed', 'transform')
+    w.expect_unchanged(slot, 'c13.receiver_changed', 'transform')
     return 'c13_axis:ok'
 
 
@@ -176,7 +176,7 @@ def c13_cli(w, ev, slot):
         w.fail('c13.cli', 'normalize-table (%s, %s) gives %r, expected %r'
                % ('pa' if pa else 'relative', AXNAME[ax], s.m.tolist(),
                   want.tolist()))
-    w.expect_unchanged(slot, 'noninplace.receiver_changed',
+    w.expect_unchanged(slot, 'c13.receiver_changed',
                        'normalize-table on a copy')
     return 'c13_cli:ok'
 
